@@ -92,6 +92,13 @@ class FrameCheck(ast.NodeVisitor):
                 self.calls_in_function.add(self.imported[n.func.id])
         args = fn.args.posonlyargs + fn.args.args + fn.args.kwonlyargs
         for a in args: self.env[a.arg] = Prov({"P:" + a.arg})
+        # a mutable default value is one object shared by every call that omits the argument: a store through that parameter is a store to module-lifetime state
+        pos = fn.args.posonlyargs + fn.args.args
+        defaults = list(zip(pos[len(pos) - len(fn.args.defaults):], fn.args.defaults)) + [(a, d) for a, d in zip(fn.args.kwonlyargs, fn.args.kw_defaults) if d is not None]
+        for a, d in defaults:
+            if isinstance(d, (ast.List, ast.Dict, ast.Set, ast.ListComp, ast.DictComp, ast.SetComp)) or (
+                    isinstance(d, ast.Call) and isinstance(d.func, ast.Name) and d.func.id in ("set", "list", "dict", "bytearray", "defaultdict", "OrderedDict", "deque", "Counter")):
+                self.env[a.arg] = Prov({"P:" + a.arg, "G"})
         self.params = [a.arg for a in args]
         self.block(fn.body)
         return self.returns
